@@ -1,5 +1,7 @@
 import ScenicModel.Gen.IntCodec
 import ScenicModel.Gen.Divergence
+import ScenicModel.Gen.StreamCfg
+import ScenicModel.Model.ReplayStream
 import ScenicModel.Model.Replay
 import ScenicModel.Model.Sample
 import Driver.Util
@@ -91,6 +93,29 @@ def handle : List String → String
     | none => "bad-op"
   | ["wsample", nodes, roots, vals] => sampleOp false nodes roots vals "-"
   | ["rsample", nodes, roots, vals, hex] => sampleOp true nodes roots vals hex
+  | ["whdr", f] => match f.toNat? with
+    | some f => if f < 256 ^ 4 then
+        toHex (Scenic.ReplayStream.writeHeader Scenic.Gen.streamFmt.replayVersion f) else "err"
+    | none => "bad-op"
+  | ["rhdr", h] => match fromHex h with
+    | some bs => match Scenic.ReplayStream.readHeader Scenic.Gen.streamFmt.replayVersion bs with
+      | none => "err"
+      | some (f, rest) =>
+        s!"ok {f} {if Scenic.ReplayStream.flagSet Scenic.Gen.streamFmt.checkBit f then 1 else 0} {toHex rest}"
+    | none => "bad-op"
+  | ["rscenehdr", a, o, h] => match fromHex a, fromHex o, fromHex h with
+    | some a, some o, some bs =>
+      -- a scenario without random dependencies: empty graph, empty sample body
+      match Scenic.Sample.readScene ⟨T, [], fun _ _ => .none, fun _ => .none⟩
+              ⟨Scenic.Gen.sceneVersion, a, o⟩ [] bs with
+      | none => "err"
+      | some _ => "ok"
+    | _, _, _ => "bad-op"
+  | ["wscenehdr", a, o] => match fromHex a, fromHex o with
+    | some a, some o =>
+      showOpt toHex (Scenic.Sample.writeScene ⟨T, [], fun _ _ => .none, fun _ => .none⟩
+              ⟨Scenic.Gen.sceneVersion, a, o⟩ (fun _ => .none) [])
+    | _, _ => "bad-op"
   | ["sdiv", tol, e, a] => match parseRat tol, parseRat e, parseRat a with
     | some tol, some e, some a =>
       if Scenic.Replay.scalarDiverged Scenic.Gen.divergenceUsesAbs tol e a then "1" else "0"
